@@ -67,14 +67,13 @@ OrderKind(leaf) == IF ~leaf.plain THEN "none"
                    ELSE CASE leaf.type = 0 -> "boolean" [] leaf.type = 1 -> "int32" [] leaf.type = 2 -> "int64"
                           [] leaf.type = 4 -> "float" [] leaf.type = 5 -> "double" [] leaf.type \in {6, 7} -> "bytes" [] OTHER -> "none"
 \* Statistics: 3 null_count, 5 max_value, 6 min_value.  Bounds, where present, must bound the non-NaN values.
-\* Readers must ignore NaN bounds, and the SkipPageBounds option writes both bounds as empty strings: neither is judged.
+\* Readers must ignore NaN bounds: they are not judged.
 BoundProblems(leaf, st, vals, what) ==
   LET kind == OrderKind(leaf)
       real == SelectSeq(vals, LAMBDA v : ~IsNaN(kind, v))
       lo == IF st.t = "struct" /\ Has(st, 6) THEN B(Field(st, 6)) ELSE <<>>
       hi == IF st.t = "struct" /\ Has(st, 5) THEN B(Field(st, 5)) ELSE <<>>
-      skipped == Len(lo) = 0 /\ Len(hi) = 0
-  IN IF kind = "none" \/ st.t # "struct" \/ skipped THEN <<>>
+  IN IF kind = "none" \/ st.t # "struct" THEN <<>>
      ELSE (IF Has(st, 6) /\ ~IsNaN(kind, lo) /\ (\E k \in 1..Len(real) : ~KLE(kind, lo, real[k])) THEN <<what \o "-min-not-a-lower-bound">> ELSE <<>>)
        \o (IF Has(st, 5) /\ ~IsNaN(kind, hi) /\ (\E k \in 1..Len(real) : ~KLE(kind, real[k], hi)) THEN <<what \o "-max-not-an-upper-bound">> ELSE <<>>)
 
@@ -205,9 +204,7 @@ SumOf(s, f(_)) == FoldLeft(LAMBDA a, x : a + f(x), 0, s)
 CountIf(s, t(_)) == Len(SelectSeq(s, t))
 Tag(pre, probs) == [k \in 1..Len(probs) |-> pre \o probs[k]]
 
-\* noBounds: columns for which the writer was told not to record page bounds in the index (SkipPageBounds): their
-\* index entries carry placeholders, which are not judged
-Chunk(bs, cc, leaf, hints, rgRows, noBounds) ==
+Chunk(bs, cc, leaf, hints, rgRows) ==
   LET md == Field(cc, 3)
       codec == I(Field(md, 4))
       dpo == I(Field(md, 9))
@@ -259,7 +256,6 @@ Chunk(bs, cc, leaf, hints, rgRows, noBounds) ==
                                 \/ (Has(x, 5) /\ Len(L(Field(x, 5))) # Len(dps)) THEN <<"column-index-page-count">>
                              ELSE IF \E k \in 1..Len(dps) : (np[k].v = 1) # (Len(dec[k].vals) = 0) THEN <<"column-index-null-page">>
                              ELSE IF Has(x, 5) /\ \E k \in 1..Len(dps) : I(L(Field(x, 5))[k]) # dec[k].nv - Len(dec[k].vals) THEN <<"column-index-null-count">>
-                             ELSE IF \E q \in 1..Len(noBounds) : noBounds[q] = leaf.path THEN <<>>
                              ELSE FoldLeft(LAMBDA a, k : a \o (IF np[k].v = 1 THEN <<>> ELSE
                                      BoundProblems(leaf, [t |-> "struct", f |-> <<<<6, L(Field(x, 2))[k]>>, <<5, L(Field(x, 3))[k]>>>>], dec[k].vals, "column-index")),
                                            <<>>, [k \in 1..Len(dps) |-> k]))
@@ -319,7 +315,7 @@ Tiles(regs, from, to) ==
   LET sorted == SortSeq(regs, LAMBDA a, b : a[1] < b[1])
   IN FoldLeft(LAMBDA pos, r : IF pos = r[1] THEN r[2] ELSE -1, from, sorted) = to
 
-Analyse(bs, hints, noBounds) ==
+Analyse(bs, hints) ==
   LET ft == TLCEval(Footer(bs)) IN
   IF ~ft.ok THEN [probs |-> <<ft.why>>, streams |-> <<>>]
   ELSE
@@ -330,7 +326,7 @@ Analyse(bs, hints, noBounds) ==
   IN IF ~SchemaConsumed(fm) \/ \E k \in 1..nl : leaves[k].bad THEN [probs |-> <<"schema-tree">>, streams |-> <<>>]
      ELSE IF \E g \in 1..Len(rgs) : Len(L(Field(rgs[g], 1))) # nl THEN [probs |-> <<"row-group-column-count">>, streams |-> <<>>]
      ELSE
-     LET ch == TLCEval([g \in 1..Len(rgs) |-> [c \in 1..nl |-> Chunk(bs, L(Field(rgs[g], 1))[c], leaves[c], hints, I(Field(rgs[g], 3)), noBounds)]])
+     LET ch == TLCEval([g \in 1..Len(rgs) |-> [c \in 1..nl |-> Chunk(bs, L(Field(rgs[g], 1))[c], leaves[c], hints, I(Field(rgs[g], 3)))]])
          rgProbs(g) ==
            LET rg == rgs[g]
                cols == L(Field(rg, 1))
